@@ -102,3 +102,16 @@ Example C21_nonvacuous :
   tenant_shard eps 2 2%Z false [] [] 7%Z [(0, [35; 1]); (1, [65; 2])]%Z = SOk [0; 3]
   /\ shard_size [(3, MUnset, [7])]%Z [[]] 7%Z 2%Z = 3%Z.
 Proof. split; vm_compute; reflexivity. Qed.
+
+(* Non-vacuity of the whole-shard theorem: its hypotheses hold of the example above. *)
+Example C21_sized_nonvacuous :
+  let eps := [(0, [10; 50]); (1, [20; 60]); (0, [30; 70]); (1, [40; 80])]%Z in
+  let rand := [(0, [35; 1]); (1, [65; 2])]%Z in
+  Forall (fun e => snd e <> []) eps /\ eps <> [] /\
+  (0 <= shard_size [] [] 7%Z 2%Z)%Z /\
+  (forall z, In z (zones_of false [] eps) ->
+     Z.to_nat (per_zone (shard_size [] [] 7%Z 2%Z) (length (zones_of false [] eps))) <= length (lookup_pos rand z)).
+Proof.
+  split; [repeat constructor; discriminate|]. split; [discriminate|]. split; [vm_compute; discriminate|].
+  intros z Hz. vm_compute in Hz. destruct Hz as [<-|[<-|[]]]; vm_compute; repeat constructor.
+Qed.
